@@ -19,3 +19,8 @@ use vstd::std_specs::convert::*;
 verus! {
 // Assumption: 64-bit target (usize == u64), as on every platform raindb's test-suite runs on.
 global size_of usize == 8;
+/// R5: `assert!(cond, ..)` of the extracted code becomes `vx_assert(cond)`: a proof obligation.
+pub fn vx_assert(c: bool)
+    requires c
+{
+}
